@@ -83,10 +83,13 @@ Fits(c, r) == ProvSum(c, r, Main(c.mode), Len(Main(c.mode))) + r.miss <= NResult
 
 SomeFree(c) == \E f \in MainSet(c.mode) : ~Has(c.p[f])
 
+(* catch: a provided amount of fruits / droplets also has to exist in the map *)
+KindCap(c, f) == IF c.mode = "catch" THEN (IF f = "n300" THEN c.sh.a ELSE c.sh.b) ELSE UNLIMITED
+
 KeepOk(c, r) ==
   Fits(c, r) =>
     \A f \in MainSet(c.mode) :
-       (Has(c.p[f]) /\ c.p[f] <= Rem(c, r)) =>
+       (Has(c.p[f]) /\ c.p[f] <= Rem(c, r) /\ c.p[f] <= KindCap(c, f)) =>
           /\ r[f] >= c.p[f]                                        \* never reduced
           /\ ((c.mode # "catch" /\ SomeFree(c)) => r[f] = c.p[f])  \* the remainder goes to the free ones
 
@@ -198,7 +201,7 @@ GenStd(c) ==                                        \* osu, taiko, mania without
 GenCatch(c) ==                                      \* fruits / droplets / misses / combo; tiny without accuracy
   LET F == c.sh.a  D == c.sh.b  T == c.sh.c
       misses == Min(Or0(c.p.miss), F + D)
-      combo  == IF Has(c.p.combo) THEN Min(c.p.combo, F + D - misses) ELSE F + D - misses
+      combo  == IF Has(c.p.combo) THEN c.p.combo ELSE F + D - misses        \* (a provided combo is not clamped)
       fd == CASE Has(c.p.n300) /\ Has(c.p.n100) ->
                    LET nrem == SatSub(F + D, c.p.n300 + c.p.n100 + misses)
                        newd == Min(nrem, SatSub(D, c.p.n100))
